@@ -403,6 +403,8 @@ func writeValue(buf *bytes.Buffer, v value) {
 		fmt.Fprintf(buf, "sym(%s)", v.t)
 	case opaqueStr:
 		fmt.Fprintf(buf, "<opaque:%s>", v.desc)
+	case decStr:
+		fmt.Fprintf(buf, "dec(%s)", v.t)
 
 	case *value:
 		if v == nil {
